@@ -30,7 +30,7 @@ CHECKS = {
              text='No access outside the entitled bytes for any n<=bound, any base alignment, 1-2 rows; no store to a source; aligned-only instructions provably aligned.',
              note='machine code only (generated C and emulator kernels: access footprints in C04/C02); speculative reads and prefetch hints ignored.', ref='DESIGN.md#c03'),
  'C10': dict(cat='translation_validation', engine='x86sym', technique='same symbolic executions with the whole entry machine state symbolic; callee-saved registers, rsp, caller stack, DF, MXCSR control bits (for every entry value), MMX state and store targets compared at ret (syntactic, else z3)',
-             text='SysV AMD64 callee obligations on every feasible path of every program of the family on sse/avx/mmx.',
+             text='SysV AMD64 callee obligations on every feasible path of every program of the family on sse/avx/mmx (default flags; every 6th program and the structural extras also with the frame-pointer flag).',
              note='entry rounding mode fixed to nearest; exception status bits of MXCSR are sticky flags and not part of the contract; upper YMM cleanliness not checked.', ref='DESIGN.md#c10'),
  'C11': dict(cat='translation_validation', engine='x86sym', technique='compile with each feature-flag subset and symbolically execute with the matching allowed ISA classes: reaching an instruction outside the set on a feasible path is a fault (decoder classifies per instruction form)',
              text='quick: all features, minimal, each single feature removed, per target, on a quarter of the family each; thorough: every subset x whole family.',
@@ -45,7 +45,7 @@ CHECKS = {
              text='Bit equality for finite inputs, NaN-ness for NaN, either zero for min/max of zeros; all bit patterns.',
              note='RNE at entry; quick tier does not claim machine-code bit equality for mul/div/sqrt/float->int (FP queries not decided in budget); x86 FTZ boundary class is a recorded known finding.', ref='DESIGN.md#c18'),
  'C12': dict(cat='translation_validation', engine='x86sym', technique='assemble the returned listing with GNU as, decode listing bytes and emitted bytes (objdump), compare instruction by instruction modulo alignment padding; pairs whose decodings differ are executed symbolically from one fully symbolic machine state and the successor states compared by z3',
-             text='Same instruction sequence (mnemonics, registers, memory operands, immediates, branch destinations as instruction indices) for every program of the family on sse/avx/mmx; a listing the assembler rejects is a violation.',
+             text='Same instruction sequence (mnemonics, registers, memory operands, immediates, branch destinations as instruction indices) for every program of the family on sse/avx/mmx plus encoder-path programs (displacements around the disp8 boundary, constant-offset resampling loads); a listing the assembler rejects is a violation.',
              note='64-bit x86 only (no cross assemblers for NEON/MIPS/PowerPC in the image); padding nops ignored on both sides.', ref='DESIGN.md#c12'),
  'C16': dict(cat='model_checking', engine='cbmc', technique='CBMC bounded model checking of enumerated lifecycle scripts through the real program/compiler/code/executor TUs with a stub back end; pointer checks (use-after-free, double free) and --memory-leak-check decide each script for all emitted sizes/bytes',
              text='Every enumerated sequence of compile / take_code / reset / recompile / run / emulate / free releases each resource exactly once, taken code stays valid after orc_program_free, no allocation is left behind.',
